@@ -172,7 +172,7 @@ protected:
     uint rule;
 
     // The VByte is firstly extracted
-    while (read < 2) {
+    while (VByte::incomplete(vb, read)) {
       rule = decodeSymbol();
 
       if (rule >= rp->terminals)
